@@ -218,6 +218,9 @@ type Terminal struct {
 	FgColor, BgColor uint32
 	ColorSchemeDark  bool
 	CellW, CellH     int // pixel size of a cell (for 14t / 48t / sixel geometry)
+	// PadW, PadH: pixels of the text area beyond cols*CellW x rows*CellH (a
+	// window whose pixel size is no multiple of the cell grid)
+	PadW, PadH int
 
 	// vocabulary log
 	Log         []LogEntry
@@ -393,7 +396,7 @@ func (t *Terminal) Resize(cols, rows int) {
 }
 
 func (t *Terminal) sendInBand() {
-	t.reply(fmt.Sprintf("\x1b[48;%d;%d;%d;%dt", t.Rows, t.Cols, t.Rows*t.CellH, t.Cols*t.CellW))
+	t.reply(fmt.Sprintf("\x1b[48;%d;%d;%d;%dt", t.Rows, t.Cols, t.Rows*t.CellH+t.PadH, t.Cols*t.CellW+t.PadW))
 }
 
 // ---------------------------------------------------------------------------
@@ -1229,7 +1232,7 @@ func (t *Terminal) csiDispatch(final byte) {
 		case 14:
 			t.probe("textarea", t.Caps.TextArea)
 			if t.Caps.TextArea {
-				t.reply(fmt.Sprintf("\x1b[4;%d;%dt", t.Rows*t.CellH, t.Cols*t.CellW))
+				t.reply(fmt.Sprintf("\x1b[4;%d;%dt", t.Rows*t.CellH+t.PadH, t.Cols*t.CellW+t.PadW))
 			}
 		case 18:
 			t.probe("textarea", t.Caps.TextArea)
